@@ -4,7 +4,7 @@
     store holds under cursor name [n] for log [l] of author [a]; [ole_p] is [<=] on optional
     heights where an existing entry may not disappear. *)
 From Coq Require Import List NArith Permutation.
-From PV Require Import Model.Heights Model.Cursor Proofs.Cursor Oracle.C07.
+From PV Require Import Model.Heights Model.Cursor Model.AckConc Proofs.Cursor Proofs.AckConc Oracle.C07.
 Import ListNotations.
 
 (** A cursor's state is the pointwise maximum of its initial state and all heights it was
@@ -82,3 +82,52 @@ Theorem C07_oracle_adv_sound :
     forall a l, lookup2 final a l = pointwise_max init xs a l.
 Proof. exact check_adv_sound. Qed.
 Print Assumptions C07_oracle_adv_sound.
+
+(** Concurrent acks through ONE [Acked] (Model/AckConc.v: the permit is modelled, each call is
+    acquire / topic check / read / advance / begin / write / release in the order of the code).
+    For EVERY schedule (list of labels, any number of calls): once all calls have returned, every
+    stored entry is the maximum of its initial value and the accepted acks of that log ... *)
+Theorem C07_concurrent_acks_max :
+  forall (k : acked) (hs : list header) (s0 : cstore) (sched : list nat) (n a l : N),
+    conc_all_done hs (conc_run k hs s0 sched) ->
+    stored (m_store (conc_run k hs s0 sched)) n a l =
+    fold_left (ack_step_spec n a l) (map (pair k) hs) (stored s0 n a l).
+Proof. exact concurrent_acks_max. Qed.
+Print Assumptions C07_concurrent_acks_max.
+
+(** ... which is what the same calls give one after the other ... *)
+Theorem C07_concurrent_acks_as_sequential :
+  forall (k : acked) (hs : list header) (s0 : cstore) (sched : list nat) (n a l : N),
+    conc_all_done hs (conc_run k hs s0 sched) ->
+    stored (m_store (conc_run k hs s0 sched)) n a l = stored (ack_all s0 (map (pair k) hs)) n a l.
+Proof. exact concurrent_acks_as_sequential. Qed.
+Print Assumptions C07_concurrent_acks_as_sequential.
+
+(** ... and between any two points of any schedule no stored entry decreases or vanishes. *)
+Theorem C07_concurrent_acks_monotone :
+  forall (k : acked) (hs : list header) (s0 : cstore) (sched1 sched2 : list nat) (n a l : N),
+    ole_p (stored (m_store (conc_run k hs s0 sched1)) n a l)
+          (stored (m_store (conc_run k hs s0 (sched1 ++ sched2))) n a l).
+Proof. exact concurrent_acks_monotone. Qed.
+Print Assumptions C07_concurrent_acks_monotone.
+
+(** Regression lemmas about two re-orderings of the steps that are NOT the code (read before
+    the permit is acquired; permit released before the write): both lose an acknowledgement, the
+    second one moves a stored height backwards. *)
+Theorem C07_concurrent_acks_unserialised_read_refuted :
+  exists (k : acked) (hs : list header) (s0 : cstore) (sched : list nat) (n a l : N),
+    conc_all_done hs (conc_run_unserialised_read k hs s0 sched) /\
+    stored (m_store (conc_run_unserialised_read k hs s0 sched)) n a l <>
+    fold_left (ack_step_spec n a l) (map (pair k) hs) (stored s0 n a l).
+Proof. exact concurrent_acks_unserialised_read_refuted. Qed.
+Print Assumptions C07_concurrent_acks_unserialised_read_refuted.
+
+Theorem C07_concurrent_acks_early_release_refuted :
+  exists (k : acked) (hs : list header) (s0 : cstore) (sched1 sched2 : list nat) (n a l : N),
+    conc_all_done hs (conc_run_early_release k hs s0 (sched1 ++ sched2)) /\
+    ~ ole_p (stored (m_store (conc_run_early_release k hs s0 sched1)) n a l)
+            (stored (m_store (conc_run_early_release k hs s0 (sched1 ++ sched2))) n a l) /\
+    stored (m_store (conc_run_early_release k hs s0 (sched1 ++ sched2))) n a l <>
+    fold_left (ack_step_spec n a l) (map (pair k) hs) (stored s0 n a l).
+Proof. exact concurrent_acks_early_release_refuted. Qed.
+Print Assumptions C07_concurrent_acks_early_release_refuted.
